@@ -46,6 +46,9 @@ def nnf(e, neg=False):
     truth value is the same)"""
     if isinstance(e, ast.UnaryOp) and isinstance(e.op, ast.Not):
         return nnf(e.operand, not neg)
+    if isinstance(e, ast.Call) and isinstance(e.func, ast.Name) and e.func.id == 'bool' \
+            and len(e.args) == 1 and not e.keywords:
+        return nnf(e.args[0], neg)          # the truth of bool(x) is the truth of x
     if isinstance(e, ast.IfExp):
         # in a boolean context: (True if c else B) is (c or B), etc.
         c, A, B = e.test, e.body, e.orelse
@@ -134,6 +137,33 @@ def _fill_of(stmts, L, kind, temps=None):
             tail += [('if', c) for c in _conjuncts(ast.UnaryOp(op=ast.Not(), operand=st.test))]
             body = body[1:]
             continue
+        if len(body) > 1 and isinstance(st, ast.Assign) and len(st.targets) == 1 and \
+                isinstance(st.targets[0], ast.Name) and st.targets[0].id != L and \
+                not _call_free(st.value) and not _mentions(st.value, L) and \
+                isinstance(body[1], ast.If) and \
+                sum(1 for n in ast.walk(body[1].test) if isinstance(n, ast.Name)
+                    and n.id == st.targets[0].id) == 1 and \
+                not any(_mentions(x, st.targets[0].id) for x in body[2:]) and \
+                not any(_mentions(x, st.targets[0].id)
+                        for x in list(body[1].body) + list(body[1].orelse)):
+            # a temporary computed right before the test that is its only
+            # reader: read it through (nothing runs in between)
+            tmp = st.targets[0].id
+            first = None
+            from .pyfront import eval_order as _eo
+            for x in _eo(body[1].test):
+                if isinstance(x, ast.Call):
+                    first = 'call'
+                    break
+                if isinstance(x, ast.Name) and x.id == tmp:
+                    first = 'tmp'
+                    break
+            if first == 'tmp':
+                nb = clone(body[1])
+                nb.test = _Inline(tmp, st.value).visit(nb.test)
+                body = [nb] + body[2:]
+                temps.add(tmp)
+                continue
         if len(body) > 1 and isinstance(st, ast.Assign) and len(st.targets) == 1 and \
                 isinstance(st.targets[0], ast.Name) and st.targets[0].id != L and \
                 _call_free(st.value) and not _mentions(st.value, L):
@@ -679,6 +709,43 @@ class _SetAttr(ast.NodeTransformer):
         return node
 
 
+def _ior_update(func):
+    """`d |= x` on a local that is bound to a fresh dict / set in the same
+    function is `d.update(x)`"""
+    fresh = set()
+    for n in ast.walk(func):
+        if isinstance(n, ast.Assign) and len(n.targets) == 1 and \
+                isinstance(n.targets[0], ast.Name) and _empty_kind(n.value) in ('dict', 'set'):
+            fresh.add(n.targets[0].id)
+    other = set()
+    for n in ast.walk(func):
+        if isinstance(n, ast.Assign):
+            for t in n.targets:
+                for x in ast.walk(t):
+                    if isinstance(x, ast.Name) and x.id in fresh and \
+                            _empty_kind(n.value) not in ('dict', 'set'):
+                        other.add(x.id)
+    fresh -= other
+    changed = False
+    for owner in ast.walk(func):
+        for field in ('body', 'orelse', 'finalbody'):
+            blk = getattr(owner, field, None)
+            if not isinstance(blk, list):
+                continue
+            for j, st in enumerate(blk):
+                if isinstance(st, ast.AugAssign) and isinstance(st.op, ast.BitOr) and \
+                        isinstance(st.target, ast.Name) and st.target.id in fresh:
+                    call = ast.Expr(value=ast.Call(
+                        func=ast.Attribute(value=ast.Name(id=st.target.id, ctx=ast.Load()),
+                                           attr='update', ctx=ast.Load()),
+                        args=[st.value], keywords=[]))
+                    ast.copy_location(call, st)
+                    ast.fix_missing_locations(call)
+                    blk[j] = call
+                    changed = True
+    return changed
+
+
 def _is_const(e, v):
     return isinstance(e, ast.Constant) and e.value is v
 
@@ -765,6 +832,37 @@ def _any_all(block, later_reads=None):
                         targets=[ast.Name(id=flag, ctx=ast.Store())],
                         value=_call('any', _genexp(inner.test, st.target, st.iter)),
                         type_comment=None), st)
+                    ast.fix_missing_locations(new)
+                    block[j] = new
+                    del block[k]
+                    changed = True
+                    continue
+            # exhaustive flag form (no break): f = False; for x in IT: if C: f = True
+            #   ==  f = bool([x for x in IT if C])   (every item is examined)
+            if not st.orelse and len(inner.body) == 1 and \
+                    isinstance(inner.body[0], ast.Assign) and \
+                    len(inner.body[0].targets) == 1 and \
+                    isinstance(inner.body[0].targets[0], ast.Name) and \
+                    _is_const(inner.body[0].value, True) and isinstance(st.target, ast.Name):
+                flag = inner.body[0].targets[0].id
+                k = j - 1
+                while k >= 0 and not _mentions(block[k], flag):
+                    k -= 1
+                later = later_reads(j) if later_reads is not None else tnames
+                if k >= 0 and isinstance(block[k], ast.Assign) and \
+                        len(block[k].targets) == 1 and \
+                        isinstance(block[k].targets[0], ast.Name) and \
+                        block[k].targets[0].id == flag and \
+                        _is_const(block[k].value, False) and flag not in tnames and \
+                        not _mentions(inner.test, flag) and not _mentions(st.iter, flag) \
+                        and not (tnames & later):
+                    comp = ast.ListComp(
+                        elt=ast.Name(id=st.target.id, ctx=ast.Load()),
+                        generators=[ast.comprehension(target=st.target, iter=st.iter,
+                                                      ifs=[inner.test], is_async=0)])
+                    new = ast.copy_location(ast.Assign(
+                        targets=[ast.Name(id=flag, ctx=ast.Store())],
+                        value=_call('bool', comp), type_comment=None), st)
                     ast.fix_missing_locations(new)
                     block[j] = new
                     del block[k]
@@ -1355,6 +1453,8 @@ def normalize(func):
     for st in new.body:
         if alpha(st):
             changed = True
+    if _ior_update(new):
+        changed = True
     mod_ = _module_of(func)
     if mod_ is not None:
         pz = _Positional(mod_)
